@@ -87,12 +87,20 @@ def parse_report(path):
 
 
 def _is_xml_text(text):
-    return all(c in u"\t\n\r" or u" " <= c <= u"\ud7ff" or u"\ue000" <= c <= u"\ufffd" or c >= u"\U00010000" for c in text)
+    """only characters that XML 1.0 neither forbids nor discourages (section 2.2): such text must arrive unchanged"""
+    def ok(c):
+        cp = ord(c)
+        if cp in (0x9, 0xA, 0xD, 0x85):
+            return True
+        if cp < 0x20 or 0x7F <= cp <= 0x9F or 0xD800 <= cp <= 0xDFFF or 0xFDD0 <= cp <= 0xFDEF:
+            return False
+        return (cp & 0xFFFE) != 0xFFFE
+    return all(ok(c) for c in text)
 
 
 def _reached(doc, got):
     """did the payload arrive where the reporter puts it (attributes compared exactly; CDATA sources: section present);
-    only asked for payloads that an XML document can carry at all"""
+    only asked for payloads that an XML document can carry without reservation"""
     text = doc["text"]
     if not _is_xml_text(text):
         return True
